@@ -391,6 +391,29 @@ def f_max(I, st, depth, callee, args, body, ln):
     return Fl(lo, hi, a.nan and b.nan)
 
 
+def f_is_nan(I, st, depth, callee, args, body, ln):
+    a = D.fl_of(args[0])
+    only_nan = a.nan and (a.lo != a.lo or a.lo > a.hi)
+    if not a.nan:
+        return 0
+    if only_nan:
+        return 1
+    return BOOL
+
+
+def f_clamp(I, st, depth, callee, args, body, ln):
+    a, lo, hi = D.fl_of(args[0]), D.fl_of(args[1]), D.fl_of(args[2])
+    # f32::clamp keeps NaN and panics only for lo > hi / NaN bounds (not modelled: bounds are constants here)
+    return Fl(min(max(a.lo, lo.lo), hi.hi), max(min(a.hi, hi.hi), lo.lo), a.nan)
+
+
+def slice_iter_mut(I, st, depth, callee, args, body, ln):
+    r = args[0]
+    if isinstance(r, Ref):
+        return _iter_of_value(I.load(st, r.alloc, r.path), Ref(r.alloc, r.path, True))
+    return It("rep", [TOP])
+
+
 def f_min(I, st, depth, callee, args, body, ln):
     a, b = D.fl_of(args[0]), D.fl_of(args[1])
     lo = min(a.lo, b.lo)
@@ -659,6 +682,9 @@ TABLE = {
     "core::convert::Into::into": conv_into,
             "core::f32::<impl f32>::max": f_max,
     "core::f32::<impl f32>::min": f_min,
+    "core::f32::<impl f32>::is_nan": f_is_nan,
+    "core::f32::<impl f32>::clamp": f_clamp,
+    "core::slice::<impl [T]>::iter_mut": slice_iter_mut,
     "core::ops::range::RangeInclusive::<Idx>::new": range_incl_new,
     "core::ops::range::RangeInclusive::<Idx>::contains": range_incl_contains,
     "core::ops::range::Range::<Idx>::contains": range_contains,
